@@ -301,6 +301,14 @@ def run_case(spec, work):
         keep[0] = True
     query = [g for g, kp in zip(genes, keep) if kp] + \
         [f'foreign_{i}' for i in range(int(rng.integers(0, 5)))]
+    # foreign names that merely *start* with the name of a reference gene
+    # the query lacks (a version suffix, one more digit): not the same gene
+    absent = [g for g, kp in zip(genes, keep) if not kp]
+    longest = max(len(g) for g in genes)
+    for g in absent[:3]:
+        query.append(g + '.' + '1' * max(2, longest - len(g) + 1))
+        query.append(g + '0' * max(1, longest - len(g) + 1))
+        ctx.bump('query_names_extending_an_absent_reference_gene', 2)
     rng.shuffle(query)
     target = int(rng.choice([1, 1, 2, 2, 3, 4, 5, 8, 15]))
     tree = TaxonomyTree(data=model.to_dict(with_cells=False))
